@@ -99,7 +99,8 @@ def generate_local_volatility_process(
     volatility = torch.empty_like(spot)
 
     time = dt * torch.arange(n_steps).to(spot)
-    dw = torch.randn_like(spot) * torch.as_tensor(dt).sqrt()
+    sqrt_dt = torch.as_tensor(dt, dtype=spot.dtype, device=spot.device).sqrt()
+    dw = torch.randn_like(spot) * sqrt_dt
 
     for i_step in range(n_steps):
         sigma = sigma_fn(time[i_step], spot[:, i_step])
